@@ -10,6 +10,7 @@ needed, an unevaluable condition) ends the evaluation as `unknown`, which the ru
 never as a violation.
 """
 from .prog import is_e, strip, key, walk, show, evalx, EvalError, callee_name, tevalx, texpr_type, _conv, PStr
+from .prog import heap_cell, PPtr, PRef
 
 
 def normx(e):
@@ -115,6 +116,12 @@ def string_builtin(name, args):
             return S(0) + len(t)
         idx = t.find(bytes([c])) if name == "strchr" else t.rfind(bytes([c]))
         return 0 if idx < 0 else S(0) + idx
+    if name == "strpbrk" and S(0) and S(1):
+        t, set_ = S(0).text(), S(1).text()
+        for i, ch in enumerate(t):
+            if ch in set_:
+                return S(0) + i
+        return 0
     if name in ("strcmp", "strcasecmp", "evutil_ascii_strcasecmp") and S(0) and S(1):
         a, b = S(0).text(), S(1).text()
         if name != "strcmp":
@@ -205,7 +212,7 @@ def _run1(fn, start, env, stop_pred, P, call_value, max_steps, exit_blocks, fork
         if is_e(l, "var"):
             k = l[1]
         else:
-            k = key(l)
+            k = heap_cell(l, env, P) or key(l)
         if v is None:
             env.pop(k, None)
             unknown.add(k)
@@ -219,7 +226,7 @@ def _run1(fn, start, env, stop_pred, P, call_value, max_steps, exit_blocks, fork
 
     def getv(lhs):
         l = strip(conc(normx(lhs)))
-        k = l[1] if is_e(l, "var") else key(l)
+        k = l[1] if is_e(l, "var") else (heap_cell(l, env, P) or key(l))
         return env.get(k)
 
     visited = budget[1] if len(budget) > 1 else None
@@ -266,6 +273,52 @@ def _run1(fn, start, env, stop_pred, P, call_value, max_steps, exit_blocks, fork
                                 v = bv
                         except EvalError:
                             pass
+                    if v == "call" and P is not None and callee_name(e) in P.fns:
+                        # evaluate the callee on the shared abstract heap: heap cells ("@"...), memory cells ("m", addr) and "#..." bookkeeping keys are
+                        # passed in and taken back; `&local` arguments travel through numbered out-cells
+                        g = P.fns[callee_name(e)]
+                        env2 = dict((k_, v_) for k_, v_ in env.items() if (isinstance(k_, tuple) and k_ and k_[0] in ("@", "m")) or (isinstance(k_, str) and k_.startswith("#")) or k_ == "event_debug_logging_mask_")
+                        env2.pop("#trace", None)
+                        depth = env.get("#depth", 0) + 1
+                        env2["#depth"] = depth
+                        if depth > 12:
+                            return Outcome("unknown", el, env, trace, "call depth")
+                        outs_ = {}
+                        for i_, ((pn, pt), a) in enumerate(zip(g.params, e[2])):
+                            sa = strip(normx(a))
+                            if is_e(sa, "addr") and is_e(strip(sa[1]), "var"):
+                                cellname = "#out%d.%d" % (depth, i_)
+                                env2[cellname] = env.get(strip(sa[1])[1])
+                                env2[pn] = PRef(None, cellname)
+                                outs_[cellname] = strip(sa[1])[1]
+                                continue
+                            try:
+                                env2[pn] = ev(a)
+                            except EvalError:
+                                pass
+                        if budget[0] <= 0:
+                            return Outcome("unknown", el, env, trace, "fork budget exhausted")
+                        subouts = run_all(g, (g.entry, 0), env2, lambda x: False, P, call_value, max_steps, (), None, None)
+                        alts_ = []
+                        for so in subouts:
+                            if so.kind == "exit" and so.why == "noreturn":
+                                continue
+                            if so.kind not in ("ret", "exit"):
+                                return Outcome("unknown", el, env, trace, "in %s: %s %s" % (g.name, so.kind, so.why))
+                            rv_ = None
+                            if so.kind == "ret" and len(so.at.e) > 1 and so.at.e[1] is not None:
+                                try:
+                                    rv_ = tevalx(conc(normx(so.at.e[1])), so.env, P, g) if so.env.get("#typed") else evalx(conc(normx(so.at.e[1])), so.env, P)
+                                except EvalError:
+                                    rv_ = None
+                            upd_ = dict((k_, v_) for k_, v_ in so.env.items() if (isinstance(k_, tuple) and k_ and k_[0] in ("@", "m")) or (isinstance(k_, str) and k_.startswith("#") and not k_.startswith("#out") and k_ not in ("#depth", "#trace", "#typed")))
+                            for cellname, vn in outs_.items():
+                                upd_[vn] = so.env.get(cellname)
+                            if (rv_, upd_) not in alts_:
+                                alts_.append((rv_, upd_))
+                        if not alts_:
+                            return Outcome("unknown", el, env, trace, "%s has no outcome" % g.name)
+                        v = alts_
                     if v == "inline" and P is not None and callee_name(e) in P.fns:
                         # evaluate the callee on the argument values (pure helpers: strings and integers in, one value out)
                         g = P.fns[callee_name(e)]
